@@ -98,7 +98,13 @@ func (set *SortedSet) GetRandom(count int) []MemberParam {
 
 	members := set.GetAll()
 
-	if internal.AbsInt(count) >= len(members) {
+	if len(members) == 0 {
+		return members
+	}
+
+	// A positive count asks for distinct members, so it is capped by the cardinality; a negative
+	// count asks for exactly |count| members and may repeat them.
+	if count > 0 && count >= len(members) {
 		return members
 	}
 
